@@ -21,6 +21,8 @@
 -/
 import NxsModel.Record
 import NxsModel.Lemmas.Record
+import NxsModel.DevRecords
+import NxsModel.Lemmas.R7DevRecords
 namespace Nxs.C19
 open Nxs Nxs.Record
 
@@ -151,5 +153,121 @@ example : (mkChan exArgs 0x8a).map (fun d => (runHistory Gen.Record.chanAllow d 
     .ok (some (.other true 3)) := by decide +kernel
 example : (mkChan exArgs 0x8a).map (fun d => (runHistory Gen.Record.chanAllow d exHist).get? "chan") =
     .ok (some 7) := by decide +kernel
+
+/-! ## Round 7 additions
+
+  Record level:
+  * `history_append` — histories compose; `history_determined_by_last` — a record after a history depends only on
+    the last value assigned to en and to div (every rejected attempt, every copy, every overwritten value is
+    invisible); `en_div_commute` — assigning en and div in either order gives the same record.
+  Device level (NEW model `DevRecords.lean`: the records of one `Device` — `dev.data`, `channel_get(i).data` — with the
+  library's own `en_channels_update` / `div_channels_update` loops going through the same `__setattr__` guard):
+  * `library_update_ok` — on the records of a device, after ANY history, the library's update never raises (the guard
+    lets exactly its two names through), stores exactly the vector given, leaves the other vector alone; a vector of
+    the wrong length is refused by the assertion;
+  * `device_history_invariant` — for every device (any channel count, any constructor arguments, any type bytes) and
+    EVERY history of application assignments to any record (any channel index, any name, any value) interleaved with
+    library updates: the device record is unchanged; there are as many channel records; every channel record is
+    sealed, has its attribute names in construction order, and every attribute other than en / div holds the value
+    construction gave it;
+  * `channel_assignments_commute` — assignments to two different channels commute (any device state, any names). -/
+
+/-- round 7: histories compose over concatenation (any state, any allow-list) -/
+theorem history_append (allow : List String) (d : Dict) (h1 h2 : List Step) :
+    runHistory allow d (h1 ++ h2) = runHistory allow (runHistory allow d h1) h2 := by
+  unfold runHistory; rw [List.foldl_append]
+
+/-- round 7: the record after a history depends only on the LAST value assigned to en and the LAST assigned to
+    div — rejected attempts, copies and overwritten values leave no trace -/
+theorem history_determined_by_last (args : String → Record.Val) (ty : Nat) (d : Dict) (h1 h2 : List Step)
+    (hd : mkChan args ty = .ok d) (he : lastAssigned "en" h1 = lastAssigned "en" h2)
+    (hv : lastAssigned "div" h1 = lastAssigned "div" h2) :
+    runHistory Gen.Record.chanAllow d h1 = runHistory Gen.Record.chanAllow d h2 := by
+  rw [mkChan_inv hd, chan_history_closed, chan_history_closed]
+  apply chanClosed_congr
+  rw [argsAfter_en, argsAfter_en, argsAfter_div, argsAfter_div, he, hv]
+  refine ⟨?_, ?_, ?_, rfl, rfl, ?_⟩ <;>
+    rw [argsAfter_ident _ _ _ (by decide) (by decide), argsAfter_ident _ _ _ (by decide) (by decide)]
+
+/-- round 7: en and div are independent — assigning them in either order gives the same record -/
+theorem en_div_commute (args : String → Record.Val) (ty : Nat) (d : Dict) (v w : Record.Val)
+    (hd : mkChan args ty = .ok d) :
+    runHistory Gen.Record.chanAllow d [.assign "en" v, .assign "div" w] =
+      runHistory Gen.Record.chanAllow d [.assign "div" w, .assign "en" v] :=
+  history_determined_by_last args ty d _ _ hd (by simp [lastAssigned]) (by simp [lastAssigned])
+
+example : (mkChan exArgs 0x8a).map (fun d => runHistory Gen.Record.chanAllow d exHist) =
+    (mkChan exArgs 0x8a).map (fun d => runHistory Gen.Record.chanAllow d
+      [.assign "div" (.int (2 ^ 64)), .assign "en" (.other true 3)]) := by
+  obtain ⟨d, hd⟩ : ∃ d, mkChan exArgs 0x8a = .ok d := ⟨_, mkChan_eq _ _⟩
+  rw [hd]
+  exact congrArg _ (history_determined_by_last exArgs 0x8a d _ _ hd (by decide) (by decide))
+
+open Nxs.DevRecords
+
+/-- round 7: **the library's own maintenance is never blocked and does nothing else.**  On the records of a device
+    built from any arguments, after ANY history `h`: `en_channels_update(vs)` / `div_channels_update(vs)`
+    (`field` = en / div) with a vector of the device's length returns without raising, the vector read back
+    (`channels_en` / `channels_div`) is exactly `vs`, the other vector is as before; a vector of another length is
+    refused (`assert`) -/
+theorem library_update_ok (dargs : String → Record.Val) (flags : Nat) (cs : List ((String → Record.Val) × Nat))
+    (d0 : Dev) (h : List DStep) (hd : mkDevRecords dargs flags cs = .ok d0) (field : String)
+    (hf : field = "en" ∨ field = "div") (vs : List Record.Val) :
+    (vs.length = cs.length → ∃ d', channelsUpdate field (runDev d0 h) vs = .ok d' ∧
+      d'.chans.map (·.get? field) = vs.map some ∧ d'.data = d0.data ∧
+      ∀ k, k ≠ field → d'.chans.map (·.get? k) = (runDev d0 h).chans.map (·.get? k)) ∧
+    (vs.length ≠ cs.length → channelsUpdate field (runDev d0 h) vs = .error .assertion) := by
+  have hi := run_inv dargs flags cs h d0 (mk_inv dargs flags cs d0 hd)
+  have hl := shape_length cs _ hi.2
+  have h0 := (mk_inv dargs flags cs d0 hd).1
+  obtain ⟨l1, l2⟩ := lib_inv field hf dargs flags cs (runDev d0 h) vs hi
+  refine ⟨fun hv => ?_, fun hv => l2 (by omega)⟩
+  obtain ⟨d', e1, e2, e3, e4⟩ := l1 (by omega)
+  exact ⟨d', e1, e3, by rw [e2.1, h0], e4⟩
+
+/-- round 7: **induction over device histories.**  For every device built from any arguments and every history of
+    steps — application assignments to ANY record of the device (any channel index, also out of range; any name; any
+    value), and the library's en / div updates with vectors of any length — afterwards: the device record is the one
+    construction built (no device-level field changed); there are as many channel records as before; and every
+    channel record `j` is sealed, has its attribute names in construction order, and holds in every attribute other
+    than en / div (identifying fields, derived attributes, the marker) exactly the value construction gave it. -/
+theorem device_history_invariant (dargs : String → Record.Val) (flags : Nat)
+    (cs : List ((String → Record.Val) × Nat)) (d0 : Dev) (h : List DStep)
+    (hd : mkDevRecords dargs flags cs = .ok d0) :
+    (runDev d0 h).data = d0.data ∧ (runDev d0 h).chans.length = d0.chans.length ∧
+    ∀ (j : Nat) (r r0 : Dict), (runDev d0 h).chans[j]? = some r → d0.chans[j]? = some r0 →
+      initDone r = true ∧ r.keys = r0.keys ∧ ∀ k, k ≠ "en" → k ≠ "div" → r.get? k = r0.get? k := by
+  have h0 := mk_inv dargs flags cs d0 hd
+  have hi := run_inv dargs flags cs h d0 h0
+  refine ⟨by rw [hi.1, h0.1], by rw [shape_length cs _ hi.2, shape_length cs _ h0.2], ?_⟩
+  intro j r r0 hr hr0
+  obtain ⟨c, hc, hrc⟩ := shape_get cs _ j r hi.2 hr
+  obtain ⟨c0, hc0, hrc0⟩ := shape_get cs _ j r0 h0.2 hr0
+  rw [hc] at hc0; cases hc0
+  obtain ⟨a1, a2, a3⟩ := recOf_fields c r hrc
+  obtain ⟨_, b2, b3⟩ := recOf_fields c r0 hrc0
+  exact ⟨a1, by rw [a2, b2], fun k k1 k2 => by rw [a3 k k1 k2, b3 k k1 k2]⟩
+
+/-- round 7: assignments to the records of two different channels commute — on ANY device state, for any names
+    and values (accepted or rejected) -/
+theorem channel_assignments_commute (d : Dev) (i j : Nat) (hij : i ≠ j) (k k' : String) (v w : Record.Val) :
+    runDev d [.chan i k v, .chan j k' w] = runDev d [.chan j k' w, .chan i k v] :=
+  chan_steps_commute d i j hij k k' v w
+
+/-- a two-channel device; an application tries identifying fields and the marker on both records and on the device
+    record, the library updates en and div in between, one library vector has the wrong length -/
+def exDev : Except Err Dev := mkDevRecords exArgs 3 [(exArgs, 0x8a), (exArgs, 2)]
+def exDevHist : List DStep :=
+  [.chan 0 "chan" (.int 9), .libEn [.bool true, .bool false], .dev "chmax" (.int 1), .chan 1 "_initdone" (.bool false),
+   .libDiv [.int 5, .int 6], .chan 7 "en" (.bool true), .libEn [.bool false], .chan 1 "en" (.other true 4),
+   .chan 0 "dtype" .none]
+example : exDev.map (fun d => (channelsEn (runDev d exDevHist), channelsDiv (runDev d exDevHist))) =
+    .ok ([some (.bool true), some (.other true 4)], [some (.int 5), some (.int 6)]) := by decide +kernel
+example : exDev.map (fun d => ((runDev d exDevHist).chans.map (·.get? "chan"), (runDev d exDevHist).data.get? "chmax")) =
+    .ok ([some 7, some 7], some 7) := by decide +kernel
+example : ∃ d, exDev = .ok d := by
+  unfold exDev mkDevRecords
+  rw [mkDev_eq, mkChans_eq]
+  exact ⟨_, rfl⟩
 
 end Nxs.C19
